@@ -425,7 +425,7 @@ CHECK = Check(
           'an un-flushed mutation between the last completed flush and the kill. After every kill the file is also reopened, one batch appended '
           'and flushed (life after the crash). Histories are sampled, kill points are exhaustive per history.'),
     parts=[Part('histories', run_history, strategy=strat_hist, examples={'quick': 300, 'thorough': 16000}),
-           Part('crash', run_crash, strategy=strat_crash, examples={'quick': 160, 'thorough': 3200},
+           Part('crash', run_crash, strategy=strat_crash, examples={'quick': 160, 'thorough': 3200}, fuzz={'thorough': 240},
                 shards={'quick': 16, 'thorough': 16}, shrink=True, max_shrink_s=60)],
     assumptions=['os.fork + os._exit at a Python-level file operation models SIGKILL for user-space buffers; a torn single write() '
                  'syscall or power loss (page cache not reaching the disk) is outside "process killed"',
